@@ -466,6 +466,7 @@ pub fn c14(tier: Tier, _seed: u64) -> Prop {
         ],
         units: c14_units(tier),
         extra: crate::hv::shard::no_extra(),
+        profiles: vec!["release"],
     }
 }
 
